@@ -40,7 +40,8 @@ Print Assumptions lz_small_mml_panics.
    table length (or an empty table), on a state whose reference is padded as prepare pads it *)
 Theorem lz_roundtrip_any_index : forall hash st rf tgt,
   (refp st = rf ++ repeat pad_byte (N.to_nat (key_len st)) /\ ref_len st = lenN rf /\
-   1 <= key_len st /\ key_len st + 3 = mml st /\ (ht st = [] \/ ht_mask st < lenN (ht st))) ->
+   1 <= key_len st /\ key_len st + 3 = mml st /\ (ht st = [] \/ ht_mask st < lenN (ht st)) /\
+   refp_len st = lenN (refp st)) ->
   tgt <> [] -> Forall sym_ok tgt -> lenN rf + lenN tgt + mml st < 2147483648 ->
   exists enc, lz_encode hash st tgt = Ok enc /\
     (match enc with [] => Ok rf | _ :: _ => lz_decode st enc end) = Ok tgt /\
@@ -50,8 +51,9 @@ Print Assumptions lz_roundtrip_any_index.
 
 (* whatever the table contains, a triple returned by find_best_match_lp satisfies the direct comparison *)
 Theorem find_best_match_lp_sound : forall st code hash tgt tp max_len npl mp lb lf,
-  (lenN (refp st) < 4294967296 /\ lenN tgt < 4294967296) -> tp <= lenN tgt -> 1 <= mml st ->
-  find_best_match_lp st code hash tgt tp max_len npl = Ok (Some (mp, lb, lf)) ->
+  (lenN (refp st) < 4294967296 /\ lenN tgt < 4294967296) -> refp_len st = lenN (refp st) ->
+  tp <= lenN tgt -> 1 <= mml st ->
+  find_best_match_lp st code hash tgt (skipnN tp tgt) tp max_len npl = Ok (Some (mp, lb, lf)) ->
   (mp < lenN (refp st) /\ tp + lf <= lenN tgt /\ mp + lf <= lenN (refp st) /\
    firstnN lf (skipnN tp tgt) = firstnN lf (skipnN mp (refp st)) /\
    lb <= npl /\ lb <= mp /\ lb <= tp /\
@@ -92,9 +94,9 @@ Example sym_ok_includes : forallb sym_okb [0;1;2;3;4;5;6;7;8;9;10;11;12;13;14;15
 Proof. vm_compute. split; reflexivity. Qed.
 Example find_best_match_nonvacuous :
   exists st, lz_new 5 = Ok st /\ exists st', lz_prepare murmur64 st ex_ref = Ok st' /\
-    find_best_match_lp st' 1 (murmur64 1) [3;0;1;2;3;0;1;0] 1 7 1 = Ok (Some (0, 0, 6)) /\
-    find_best_match_lp st' 1 (murmur64 1) [3;0;1;2;3;3;0] 1 6 1 = Ok (Some (4, 1, 5)) /\
-    find_best_match_lp st' 1 (murmur64 1) [3;0;1;2;3;0;0] 1 6 1 = Ok None.
+    find_best_match_lp st' 1 (murmur64 1) [3;0;1;2;3;0;1;0] [0;1;2;3;0;1;0] 1 7 1 = Ok (Some (0, 0, 6)) /\
+    find_best_match_lp st' 1 (murmur64 1) [3;0;1;2;3;3;0] [0;1;2;3;3;0] 1 6 1 = Ok (Some (4, 1, 5)) /\
+    find_best_match_lp st' 1 (murmur64 1) [3;0;1;2;3;0;0] [0;1;2;3;0;0] 1 6 1 = Ok None.
 Proof. eexists. split; [vm_compute; reflexivity|]. eexists. split; [vm_compute; reflexivity|]. vm_compute. repeat split; reflexivity. Qed.
 Example read_int_nonvacuous : read_int (append_int (-2147483647) ++ [44; 49]) = Ok ((-2147483647)%Z, [44; 49]).
 Proof. vm_compute. reflexivity. Qed.
